@@ -399,6 +399,26 @@ func main() {
 	} else {
 		r.TieOK()
 	}
+	if f := strings.Fields(rep); len(f) != 6 || f[4] != "1" {
+		what := map[string]string{
+			"spawnAfterComplete":   "a goroutine is started while the goroutine that starts it still writes a field of the same object that the new goroutine reads (a later loop iteration or a later statement stores into it): the reader may see it incomplete",
+			"chunkBuffersOwned":    "UnspentDB.save sends a chunk buffer to the file goroutine and touches the same buffer again (a pool smaller than the channel capacity + 2, or one reused buffer): a chunk can be rewritten while it is being written to the file",
+			"changeSetOwnsScripts": "commitTxs stores a slice of a stored UTXO record's memory (handed out by UnspentDB) into the change set for CommitBlockTxs instead of a copy: the delete workers free that memory while the undo writer / insert workers still read it",
+		}
+		bad := "?"
+		if len(f) == 6 {
+			bad = f[5]
+		}
+		msg := "ownership facts regenerated from the source do not hold: " + bad
+		for _, b := range strings.Split(bad, ",") {
+			if w, ok := what[b]; ok {
+				msg += "; " + b + ": " + w
+			}
+		}
+		r.TieFail("ownership-facts:"+bad, msg, map[string]interface{}{"oracle": rep})
+	} else {
+		r.TieOK()
+	}
 	exploreModel(o, r.N(400, 6000))
 
 	bin, err := buildWorker()
@@ -429,9 +449,14 @@ func main() {
 			}
 			jobs = append(jobs, j)
 		}
+		for s := 1; s <= 3; s++ {
+			jobs = append(jobs, job{Seed: r.Seed, Shard: s, Tier: "thorough", Only: "recycle"})
+			jobs = append(jobs, job{Seed: r.Seed, Shard: s, Tier: "quick", Only: "bigsnap"})
+		}
 	} else {
-		jobs = []job{{Seed: r.Seed, Shard: 0, Tier: "quick", Only: "resave"}, {Seed: r.Seed, Shard: 0, Tier: "quick", Only: "createfail"}, {Seed: r.Seed, Shard: 0, Tier: "quick", Only: "chain"},
-			{Seed: r.Seed, Shard: 1, Tier: "quick", Only: "chain"}, {Seed: r.Seed, Shard: 0, Tier: "quick", Only: "compr"}}
+		jobs = []job{{Seed: r.Seed, Shard: 0, Tier: "quick", Only: "recycle"}, {Seed: r.Seed, Shard: 0, Tier: "quick", Only: "chain"},
+			{Seed: r.Seed, Shard: 1, Tier: "quick", Only: "chain"}, {Seed: r.Seed, Shard: 0, Tier: "quick", Only: "compr"},
+			{Seed: r.Seed, Shard: 0, Tier: "quick", Only: "resave,bigsnap"}, {Seed: r.Seed, Shard: 0, Tier: "quick", Only: "createfail"}}
 	}
 	type result struct {
 		j     job
